@@ -1,10 +1,11 @@
 (* Dispatcher from property number to the correspondence entry point of its model. *)
 From Coq Require Import List ZArith.
-From GP Require Import Base.Val Base.GoStrings Model.Secure Model.Negotiate Model.Handshake Model.Stderr Model.Env Model.Stdio Model.Params Generated.
+From GP Require Import Base.Val Base.GoStrings Model.Secure Model.Negotiate Model.Handshake Model.Stderr Model.Env Model.Stdio Model.MuxBroker Model.MuxTimed Model.Params Generated.
 
 Definition check_prop (p : Z) (inp obs : V) : verdict :=
   match p with
   | 13%Z => check_secure inp obs
+  | 6%Z => check_muxtimed gen_mux_params inp obs
   | 11%Z => check_stdio stdio_chunk inp obs
   | 111%Z => check_copychan stdio_chunk inp obs
   | 17%Z => check_env gen_env_params inp obs
